@@ -417,6 +417,10 @@ def mk_algo(bt, d, tickers, dates, data, perturb=None):
         r = _random.Random(d[1])
         idx = pd.DatetimeIndex(dates)
         sig = pd.DataFrame({t: [r.random() < 0.6 for _ in idx] for t in tickers}, index=idx)
+        if len(d) > 2 and d[2]:
+            # a signal published at the close: some of its rows are stamped later on the day than the (midnight) price row
+            idx = pd.DatetimeIndex([ts + pd.Timedelta(hours=16) if r.random() < 0.5 else ts for ts in idx])
+            sig.index = idx
         if perturb:
             cut = pd.Timestamp(perturb["cut"])
             for i in idx:
